@@ -3,30 +3,91 @@ import Taskpool.Inv.Lift
 /-! `Good` (slot conservation ∧ phase invariant) as a pool invariant of every reachable world. -/
 namespace Taskpool
 
-/-- for a pool constructed with a finite size `n`: slot conservation against `n`, and the phase invariant -/
-def GoodC (c : Cfg) (p : Pool) : Prop := ∀ n, c.size0 = .fin n → Good n p
+/-- slot conservation against the size the pool was constructed with (for an unbounded pool: the counter stays
+unbounded), the phase invariant and the registry invariant -/
+def GoodC (c : Cfg) (p : Pool) : Prop := Good c.size0 p
+
+/-- the same without reference to the configured size: it survives assignments to `pool_size` -/
+def BaseC (_ : Cfg) (p : Pool) : Prop := ∃ cap : Cap, Good cap p
 
 def noSetSize : Op → Bool := fun o => !o.isSetSize
 
-theorem good_init (n : Nat) (simple : Option SpawnSpec) : Good n (Pool.init (.fin n) simple) :=
-  ⟨⟨n, rfl, by simp [Pool.init, heldL, grantsL]⟩, fun i tk h _ => by simp [Pool.init] at h,
+theorem good_init (cap : Cap) (simple : Option SpawnSpec) : Good cap (Pool.init cap simple) :=
+  ⟨by cases cap with
+      | fin n => exact ⟨n, rfl, by simp [Pool.init, heldL, grantsL]⟩
+      | inf => exact ⟨rfl, rfl⟩,
+   fun i tk h _ => by simp [Pool.init] at h,
    ⟨by simp [Pool.init], fun t h => by simp [Pool.init] at h, fun t h => by simp [Pool.init] at h,
     fun t h => by simp [Pool.init] at h, fun _ t tk h _ => by simp [Pool.init] at h⟩⟩
 
 theorem goodC_invariant : PoolInvariant GoodC noSetSize where
   init := by
-    intro c simple _ n hn
-    rw [hn]; exact good_init n simple
+    intro c simple _
+    exact good_init c.size0 simple
   op := by
-    intro c p orders o ho hg n hn
-    have h1 := (Pool.tame_setOrders p orders).good (hg n hn)
+    intro c p orders o ho hg
+    have h1 := (Pool.tame_setOrders p orders).good hg
     exact (Pool.tame_applyOp _ o (by simpa [noSetSize] using ho)).good h1
   run := by
-    intro c p orders r hg n hn
-    exact Pool.good_runRef _ r ((Pool.tame_setOrders p orders).good (hg n hn))
+    intro c p orders r hg
+    exact Pool.good_runRef _ r ((Pool.tame_setOrders p orders).good hg)
   drain := by
-    intro c p hg n hn
-    exact (tame_of_eq p { p with emit := [] } rfl rfl).good (hg n hn)
+    intro c p hg
+    exact (tame_of_eq p { p with emit := [] } rfl rfl).good hg
+
+/-- an assignment to `pool_size` re-bases slot conservation; phase and registry invariants do not care -/
+theorem good_setSize {cap : Cap} (p : Pool) (v : Int) (hg : Good cap p) : ∃ cap', Good cap' (p.doSetSize v).1 := by
+  unfold Pool.doSetSize
+  split
+  · exact ⟨cap, hg⟩
+  · exact ⟨.fin (v.toNat + heldL p.tasks + grantsL p.sem.waiters), ⟨v.toNat, rfl, rfl⟩, hg.phase,
+      hg.reg.of_eq rfl rfl rfl rfl rfl⟩
+
+/-- phase and registry invariants (with *some* slot conservation) hold in every pool after **every** history,
+assignments to `pool_size` included -/
+theorem baseC_invariant : PoolInvariant BaseC allOps where
+  init := by
+    intro c simple _
+    exact ⟨c.size0, good_init c.size0 simple⟩
+  op := by
+    intro c p orders o _ ⟨cap, hg⟩
+    have h1 := (Pool.tame_setOrders p orders).good hg
+    by_cases hs : o.isSetSize = true
+    · cases o with
+      | setSize v => exact good_setSize _ v h1
+      | _ => simp [Op.isSetSize] at hs
+    · exact ⟨cap, (Pool.tame_applyOp _ o (by simpa using hs)).good h1⟩
+  run := by
+    intro c p orders r ⟨cap, hg⟩
+    exact ⟨cap, Pool.good_runRef _ r ((Pool.tame_setOrders p orders).good hg)⟩
+  drain := by
+    intro c p ⟨cap, hg⟩
+    exact ⟨cap, (tame_of_eq p { p with emit := [] } rfl rfl).good hg⟩
+
+/-- every pool of every world reachable without an assignment to `pool_size`, if constructed with the finite size `n` -/
+theorem goodFin (base : Nat) (h : History) (hn : ∀ x ∈ h, x.admits noSetSize = true) (i : Nat) (c : Cfg) (p : Pool)
+    (n : Nat) (hc : ((World.init base).run h).cfgs[i]? = some c) (hp : ((World.init base).run h).pools[i]? = some p)
+    (hsz : c.size0 = .fin n) : Good (.fin n) p := by
+  have := (World.reachable goodC_invariant base h hn).inv i c p hc hp
+  unfold GoodC at this
+  rw [hsz] at this
+  exact this
+
+/-- … and if constructed unbounded -/
+theorem goodInf (base : Nat) (h : History) (hn : ∀ x ∈ h, x.admits noSetSize = true) (i : Nat) (c : Cfg) (p : Pool)
+    (hc : ((World.init base).run h).cfgs[i]? = some c) (hp : ((World.init base).run h).pools[i]? = some p)
+    (hsz : c.size0 = .inf) : Good .inf p := by
+  have := (World.reachable goodC_invariant base h hn).inv i c p hc hp
+  unfold GoodC at this
+  rw [hsz] at this
+  exact this
+
+/-- every pool of every reachable world, whatever the history (assignments to `pool_size` included) -/
+theorem baseAll (base : Nat) (h : History) (i : Nat) (c : Cfg) (p : Pool)
+    (hc : ((World.init base).run h).cfgs[i]? = some c) (hp : ((World.init base).run h).pools[i]? = some p) :
+    PhaseOK p ∧ RegOK p := by
+  obtain ⟨cap, hg⟩ := (World.reachable baseC_invariant base h (fun x _ => admits_all x)).inv i c p hc hp
+  exact ⟨hg.phase, hg.reg⟩
 
 /-- the number of workers that have begun and not finished -/
 def Pool.live (p : Pool) : Nat := p.tasks.countP (fun t => t.phase == .inWorker)
